@@ -14,7 +14,8 @@ BOUNDS = {
 ASSUMPTIONS = [
     'C19/mdspan: mapping precondition assumed: the size of the index space (and for layout_stride the required span size) is representable in the index type',
     'C19/mdspan: layout_stride strides satisfy [mdspan.layout.stride.cons]: s_r >= 1 and a (symbolic) permutation orders them with s[P_k] >= s[P_k-1]*extent(P_k-1); strides bounded by SMAX, dynamic extents by DMAX (bounds, not preconditions)',
-    'C19/mdspan: layout_stride::mapping::required_span_size()/is_exhaustive()/operator==/converting constructors and layout_left/right(layout_stride::mapping) are declared but not defined on the pinned tree: not callable; "inside the required span" for layout_stride is stated against the standard formula',
+    'C19/mdspan: layout_stride::mapping::is_exhaustive()/operator==/converting constructors and layout_left/right(layout_stride::mapping) are declared but not defined: not callable; required_span_size() is compared with the standard formula (any extent 0 -> 0, rank 0 -> 1)',
+    'C19/mdspan: q_mda_stride uses a minimal size-constructible container (kernel.cpp exact_ctr) that traps on any access at an index >= the size mdarray requested; required span assumed <= 16 (fill-loop bound)',
     'C19/mdspan: rank 0: layout_left/right::mapping::operator()() is rejected by clang (g++ accepts), layout_stride::mapping(extents, strides) does not compile; rank-0 calls are made through a default-constructed layout_stride mapping only',
     'C19/mdspan: submdspan / submdspan_mapping are commented out in the pinned tree (nothing to check); submdspan_extents is exercised for the slice patterns that compile (see kernel.cpp); strided_slice is static_assert(false)',
     'C19/mdspan: linalg::layout_transpose::is_always_contiguous()/is_contiguous() name members that layout_left/right do not have (not instantiable); not called',
@@ -117,13 +118,15 @@ def queries(tier, prop='C19'):
             ents += ['q_conv_from_dyn', 'q_conv_to_dyn', 'q_md', 'q_mda']
             if not zs:
                 ents.append('q_md_ctor_all')
+        if r > 0 and sp <= 8 and (it == 'int' or r == 2) and (r <= 2 or (tier != 'quick' and r == 3 and rd <= 2)):
+            ents.append('q_mda_stride')   # container fill loop bounded by MDAS_MAX = 16 (driver.cpp)
         if r == 1:
             ents.append('q_sub_pair')
         if r == 2:
             ents += ['q_trleft', 'q_trright', 'q_trleft_stride', 'q_trright_stride']
         for e in ents:
             big = cap * 4 + 40 if e == 'q_mda' else 48
-            q = dict(entry=e, cfg=cfg, solver=os.environ.get('C19_SOLVER', 'minisat'), unwind=(max(cap + 3, 9) if e == 'q_mda' else 9), unwindset={'ll_memset.0': big, 'll_memcpy.0': big, 'll_memmove.0': big, 'll_memmove.1': big}, budget=120 if tier == 'quick' else 600, ub=ub, nofunc=ub)
+            q = dict(entry=e, cfg=cfg, solver=os.environ.get('C19_SOLVER', 'minisat'), unwind=(max(cap + 3, 9) if e == 'q_mda' else 20 if e == 'q_mda_stride' else 9), unwindset={'ll_memset.0': big, 'll_memcpy.0': big, 'll_memmove.0': big, 'll_memmove.1': big}, budget=120 if tier == 'quick' else 600, ub=ub, nofunc=ub)
             # configurations that lie wholly inside an open known-finding region (HARNESS.md): only the confirm query uses them
             if 'C19_extents_ctor_all_values' in opn and e in ('q_ctor_all', 'q_md_ctor_all') and mixed:
                 q['confirm_only'] = True
